@@ -68,6 +68,10 @@ func main() {
 		os.Exit(code)
 	case "one":
 		cmdOne(os.Args[2:])
+	case "replica":
+		code := cmdReplica(os.Args[2])
+		cleanupHome()
+		os.Exit(code)
 	default:
 		usage()
 	}
